@@ -40,6 +40,8 @@ CONFIG = {
         "level": "exploration",
         "rule": "C03: every pack type (24 registered through the factory + 13 with their own Write/Read) built by constructor + reflective fill of every field + fix-ups for documented preconditions, serialized, deserialized and re-serialized.",
         "groups": [G("c03", shards={"quick": 4, "thorough": 16}, timeout={"quick": 300, "thorough": 2400})],
+        "fuzz": [{"pkg": "c03", "name": "FuzzPackFixpoint", "seconds": 180}],
+        "ulimit_v_kb": 8 * 1024 * 1024,
         "assumptions": [
             "byte-counted sections hold at most 255 entries, arrays at most 32767 elements, Int3 fields are within 24 bits",
             "SMBasePack: the Cpu/Memory implementation matches OS the way Read dispatches (Linux/OSX/AIX/HPUX -> Linux structs, Windows -> Windows structs)",
